@@ -28,6 +28,7 @@ ap.add_argument("--files", default="")
 ap.add_argument("--seed", type=int, default=1)
 ap.add_argument("--all-checks", action="store_true", help="run every check on survivors of the anchored ones")
 ap.add_argument("--retest-survivors", action="store_true", help="only re-run the recorded SURVIVED mutants (with --all-checks: against all checks)")
+ap.add_argument("--full-quick", action="store_true", help="run all shards of the quick tier instead of shard 0 only")
 ap.add_argument("--only", default="", help="comma separated mutant keys to (re)run")
 args = ap.parse_args()
 
@@ -108,12 +109,25 @@ def rapid_seed(verif_seed, shard, pid):
     return ((verif_seed * 2654435761 + shard * 40503 + h * 7919) % (1 << 31)) | 1
 
 def run_check(binary, pid, wt, scr):
+    """Runs the quick tier of one check: shard 0 only in the first pass, all
+    shards of the quick tier (as ./check does) with --full-quick."""
+    nsh = int(checks[pid]["quick"].get("shards", 1)) if args.full_quick else 1
+    verdict = ("silent", "")
+    for k in range(nsh):
+        st, msg = run_shard(binary, pid, wt, scr, k, nsh)
+        if st == "killed":
+            return st, msg
+        if st == "inconclusive":
+            verdict = (st, msg)
+    return verdict
+
+def run_shard(binary, pid, wt, scr, k, nsh):
     cfg = checks[pid]
     d = os.path.join(scr, pid)
     shutil.rmtree(d, ignore_errors=True); os.makedirs(d)
     cmd = [binary, "-test.run", "^%s$" % cfg["test"], "-test.count=1", "-test.timeout", "600s",
-           "-rapid.checks=%d" % cfg["quick"]["checks"], "-rapid.seed=%d" % rapid_seed(0, 0, pid), "-rapid.shrinktime=5s"]
-    rc, out = sh(cmd, cwd=d, extra={"VERIF_TIER": "quick", "VERIF_SEED": "0", "VERIF_SHARD": "0", "VERIF_SHARDS": "1",
+           "-rapid.checks=%d" % cfg["quick"]["checks"], "-rapid.seed=%d" % rapid_seed(0, k, pid), "-rapid.shrinktime=5s"]
+    rc, out = sh(cmd, cwd=d, extra={"VERIF_TIER": "quick", "VERIF_SEED": "0", "VERIF_SHARD": str(k), "VERIF_SHARDS": str(nsh),
                                     "VERIF_REPO": wt, "VERIF_ROOT": ROOT, "VERIF_SCRATCH": d}, timeout=900)
     shutil.rmtree(d, ignore_errors=True)
     if rc == 0:
